@@ -26,12 +26,13 @@ Definition NFSERR_NOTEMPTY := st c_NFSERR_NOTEMPTY.
 Definition NFSERR_STALE := st c_NFSERR_STALE.     Definition NFSERR_NOTSUPP := st c_NFSERR_NOTSUPP.
 Definition NFSERR_NOT_SYNC := st c_NFSERR_NOT_SYNC.
 Definition NFSERR_DELAY := st c_NFSERR_DELAY.
+Definition GARBAGE : N := st c_GARBAGE_ARGS.
 
 (* mapError on the errno values the backend contract produces (probe: ENOTEMPTY is os.ErrExist) *)
 Definition map_error (e : errno) : N :=
   match e with
   | ENOENT => NFSERR_NOENT | EEXIST => NFSERR_EXIST | ENOTDIR => NFSERR_NOTDIR | EISDIR => NFSERR_ISDIR
-  | ENOTEMPTY => NFSERR_EXIST | _ => NFSERR_IO
+  | ENOTEMPTY => NFSERR_EXIST | EFBIG => NFSERR_FBIG | _ => NFSERR_IO
   end.
 
 (* ---------- FNV-1a 64 and path rendering ---------- *)
@@ -358,6 +359,7 @@ Definition handle_read (s : srv) (h off cnt : N) : srv * obs :=
 Definition handle_write (s : srv) (h off cnt stable : N) (data : list N) : srv * obs :=
   if ro (conf s) then (s, fail_wcc NFSERR_ROFS)
   else if two64 - 1 - cnt <? off then (s, fail_wcc NFSERR_INVAL)
+  else if negb (cnt =? N.of_nat (length data)) then (s, fail_wcc GARBAGE)   (* opaque length <> count *)
   else if tsize (conf s) <? cnt then (s, fail_wcc NFSERR_INVAL)
   else if (0 <? maxfile (conf s)) && (0 <? cnt) && ((maxfile (conf s) <? off) || (maxfile (conf s) - off <? cnt))
        then (s, fail_wcc NFSERR_FBIG)
@@ -560,21 +562,26 @@ Definition handle_access (s : srv) (c : cred) (h mask : N) : srv * obs :=
   end.
 
 (* ---------- LOOKUP / READLINK ---------- *)
+(* encodeCurrentAttrs: the directory's own attributes in a LOOKUP reply are read from the backend; when
+   that fails the reply carries no attributes *)
+Definition current_attrs (s : srv) (h : N) (p : path) : srv * option fattr :=
+  let '(s1, ga) := getattr_h s h p in
+  (s1, match ga with Ok a => sf a | Err _ => None end).
 Definition handle_lookup (s : srv) (h : N) (n : name) : srv * obs :=
   if negb (validate_name n =? st_ok) then (s, fail_post NFSERR_ACCES)
   else match lookup_node s h with
   | None => (s, fail_post NFSERR_STALE)
   | Some (p, da) =>
-    if negb (kind_eqb (na_kind da) KDir) then (s, ob_mk NFSERR_NOTDIR [sf da] [] None [] [])
+    if negb (kind_eqb (na_kind da) KDir) then
+      let '(s1, a) := current_attrs s h p in (s1, ob_mk NFSERR_NOTDIR [a] [] None [] [])
     else
       let '(s1, r) := srv_lookup s (p ++ [n]) in
       match r with
-      | Err e => (s1, ob_mk (map_error e) [sf da] [] None [] [])
+      | Err e => let '(s2, a) := current_attrs s1 h p in (s2, ob_mk (map_error e) [a] [] None [] [])
       | Ok a =>
         let '(s2, fh) := alloc s1 (p ++ [n]) a in
-        (* the directory attributes are those of the node under handle h, read after the allocation *)
-        let da' := match node_get s2 h with Some x => x | None => da end in
-        (s2, ob_mk st_ok [sf a; sf da'] [] (Some fh) [] [])
+        let '(s3, da') := current_attrs s2 h p in
+        (s3, ob_mk st_ok [sf a; da'] [] (Some fh) [] [])
       end
   end.
 
@@ -665,7 +672,8 @@ Definition handle_create (s : srv) (c : cred) (h : N) (n : name) (how : N) (sa :
     if negb (validate_mode mode =? st_ok) then (s, fail_wcc NFSERR_INVAL)
     else match lookup_node s h with
     | None => (s, fail_wcc NFSERR_STALE)
-    | Some (d, _) =>
+    | Some (d, dattr) =>
+      if negb (kind_eqb (na_kind dattr) KDir) then (s, fail_wcc NFSERR_NOTDIR) else
       let '(s1, pre) := getattr_h s h d in
       match pre with
       | Err e => (s1, fail_wcc (map_error e))
@@ -691,6 +699,7 @@ Definition handle_create (s : srv) (c : cred) (h : N) (n : name) (how : N) (sa :
               let rt : srv * res unit :=
                 match (if with_sattr then s_size sa else None) with
                 | Some sz => if two63N <=? sz then (s2, Ok tt)
+                             else if (0 <? maxfile (conf s2)) && (maxfile (conf s2) <? sz) then (s2, Err EFBIG)
                              else let r := lift_unit s2 (bc2 BTruncate p [] sz 0) (be_truncate (fs s2) p (Z.of_N sz) (now s2)) in
                                   (ac_invalidate (fst r) p, snd r)
                 | None => (s2, Ok tt)
@@ -722,7 +731,8 @@ Definition handle_mkdir (s : srv) (c : cred) (h : N) (n : name) (sa : sattr) : s
     if negb (validate_mode mode =? st_ok) then (s, fail_wcc NFSERR_INVAL)
     else match lookup_node s h with
     | None => (s, fail_wcc NFSERR_STALE)
-    | Some (d, _) =>
+    | Some (d, dattr) =>
+      if negb (kind_eqb (na_kind dattr) KDir) then (s, fail_wcc NFSERR_NOTDIR) else
       let '(s1, pre) := getattr_h s h d in
       match pre with
       | Err e => (s1, fail_wcc (map_error e))
@@ -755,7 +765,8 @@ Definition handle_symlink (s : srv) (c : cred) (h : N) (n : name) (sa : sattr) (
     if is_abs target || target_has_dotdot target then (s, fail_wcc NFSERR_ACCES)
     else match lookup_node s h with
     | None => (s, fail_wcc NFSERR_STALE)
-    | Some (d, _) =>
+    | Some (d, dattr) =>
+      if negb (kind_eqb (na_kind dattr) KDir) then (s, fail_wcc NFSERR_NOTDIR) else
       let '(s1, pre) := getattr_h s h d in
       match pre with
       | Err e => (s1, fail_wcc (map_error e))
@@ -856,7 +867,8 @@ Definition handle_rename (s : srv) (h1 : N) (n1 : name) (h2 : N) (n2 : name) : s
   else if negb (validate_name n1 =? st_ok) then (s, fail_wcc2 (validate_name n1))
   else if negb (validate_name n2 =? st_ok) then (s, fail_wcc2 (validate_name n2))
   else match lookup_node s h1, lookup_node s h2 with
-  | Some (d1, _), Some (d2, _) =>
+  | Some (d1, da1), Some (d2, da2) =>
+    if negb (kind_eqb (na_kind da1) KDir) || negb (kind_eqb (na_kind da2) KDir) then (s, fail_wcc2 NFSERR_NOTDIR) else
     let '(s1, pre1) := getattr_h s h1 d1 in
     match pre1 with
     | Err e => (s1, fail_wcc2 (map_error e))
@@ -1053,7 +1065,6 @@ Definition handle_mnt (s : srv) (p : list N) : srv * obs :=
 (* xdrDecodeString refuses strings longer than MAX_XDR_STRING_LENGTH and strings containing NUL:
    the handler then answers GARBAGE_ARGS in the status word (known finding C14 k=1), after the
    read-only guard of the mutating procedures *)
-Definition GARBAGE : N := st c_GARBAGE_ARGS.
 Definition str_ok (n : list N) : bool :=
   (N.of_nat (length n) <=? st c_MAX_XDR_STRING_LENGTH) && negb (existsb (fun b => b =? 0) n).
 Definition ob_rpc_fail (code : N) : obs :=
